@@ -1,0 +1,24 @@
+//go:build verif
+
+// Package verifgetter re-exports the client's internal getter and block
+// notification pub/sub for the out-of-module verification harness. Compiled
+// only with -tags verif.
+package verifgetter
+
+import (
+	"github.com/ipfs/boxo/bitswap/client/internal/getter"
+	"github.com/ipfs/boxo/bitswap/client/internal/notifications"
+)
+
+type (
+	PubSub   = notifications.PubSub
+	WantFunc = getter.WantFunc
+)
+
+// NewPubSub returns the notification pub/sub the bitswap client uses.
+func NewPubSub() PubSub { return notifications.New(false) }
+
+var (
+	AsyncGetBlocks = getter.AsyncGetBlocks
+	SyncGetBlock   = getter.SyncGetBlock
+)
